@@ -26,7 +26,7 @@ check('C05', 'call-graph reachability (no allocation request reachable from any 
 
 check('C07', 'call-graph exclusion (capacity-changing callees reachable only through grow) + control-dependence of every grow call on a capacity comparison + abstract interpretation of the growth function',
       'Decides in full, for the analysed matrix, the clauses "capacity never decreases except through shrink_to_fit/move/swap", "an operation whose result fits does not reallocate" and "after reserve(n) capacity()>=n"; structural only for size()<=capacity().',
-      'Also: RESERVE-POST (every path through reserve(n) grows or has compared n with capacity() itself), NEED-SIZE, MAX-SIZE (max_size() is the maximum of size_type for the dynamic vectors - signed archetypes included - and the capacity for the fixed ones). Partial: run-time inequalities and preserved element addresses over histories are not decided; see DESIGN.md C07.',
+      'Also: GROW-LAYOUT (grow / shrink / resetToSmall interpreted over the whole object - size words, storage pointer, inline / owned / new block, allocator events - once per state of the inline encoding: elements relocated completely and in order, words decode to the same size and the new capacity, old block given back once with its capacity). Also: RESERVE-POST (every path through reserve(n) grows or has compared n with capacity() itself), NEED-SIZE, MAX-SIZE (max_size() is the maximum of size_type for the dynamic vectors - signed archetypes included - and the capacity for the fixed ones). Partial: run-time inequalities and preserved element addresses over histories are not decided; see DESIGN.md C07.',
       'DESIGN.md section 4, C07')
 
 check('C08', 'rule instances over the instantiated program: throw-type/condition table, computation-type (integral promotion) check of every capacity request, growth-function interpretation',
@@ -36,7 +36,7 @@ check('C08', 'rule instances over the instantiated program: throw-type/condition
 
 check('C18', 'abstract interpretation (affine lower bounds with clamp) of the growth function + loop/once-per-path rule for capacity adjustments',
       'The reallocation bound follows for every n from two static facts: growth factor a with a*a>=2 (derived: 3/2) and at most one grow with one allocator request per appended element; decided for every size_type archetype.',
-      'Also: EXACT-WHO (no element-adding operation reaches an exact request), GROW-BASIS (SafeNextCapacity is given the current capacity, never the word holding the size), SHRINK-INLINE, SHRINK-ALL (shrink_to_fit of amc::vector reduces the capacity whenever it differs from size(), with no further condition). Trusted: constant folding of numeric_limits; arithmetic from the factor to 2*ceil(log2 n)+4 is in the evidence explanation.',
+      'Also: GROW-LAYOUT (grow / shrink / resetToSmall interpreted over the whole object - size words, storage pointer, inline / owned / new block, allocator events - once per state of the inline encoding: elements relocated completely and in order, words decode to the same size and the new capacity, old block given back once with its capacity). Also: EXACT-WHO (no element-adding operation reaches an exact request), GROW-BASIS (SafeNextCapacity is given the current capacity, never the word holding the size), SHRINK-INLINE, SHRINK-ALL (shrink_to_fit of amc::vector reduces the capacity whenever it differs from size(), with no further condition). Trusted: constant folding of numeric_limits; arithmetic from the factor to 2*ceil(log2 n)+4 is in the evidence explanation.',
       'DESIGN.md section 4, C18')
 
 check('C09', 'typestate analysis on the structured bodies of the instantiated program (slot holes, pending temporaries, uncommitted raw constructs, size commits) with may-throw points taken from the resolved call graph and evaluated exception specifications',
@@ -61,7 +61,7 @@ check('C02', 'who-may-call analysis of byte copies over the resolved call graph 
 
 check('C06', 'argument-provenance and typestate rules on allocator call sites (who passes which word), release-on-all-heap-paths analysis, hand-over effect analysis',
       'Decides that every deallocate/reallocate call site passes the block with the capacity word that travels with it, that every path that abandons or overwrites a storage pointer released the block first, that hand-over transfers pointer+capacity jointly without element operations, and that reallocate is reached only for relocatable element types.',
-      'Also: UNION-STATE, BLOCK (fresh blocks owned or given back on every exit), XALLOC (buffers exchanged only between equal allocator type and size_type), STALE-READ (the capacity travels with the block in swap2). Partial: exactly-once as a count over histories and unequal stateful allocators are not decided.',
+      'Also: GROW-LAYOUT (grow / shrink / resetToSmall interpreted over the whole object - size words, storage pointer, inline / owned / new block, allocator events - once per state of the inline encoding: elements relocated completely and in order, words decode to the same size and the new capacity, old block given back once with its capacity). Also: UNION-STATE, BLOCK (fresh blocks owned or given back on every exit), XALLOC (buffers exchanged only between equal allocator type and size_type), STALE-READ (the capacity travels with the block in swap2). Partial: exactly-once as a count over histories and unequal stateful allocators are not decided.',
       'DESIGN.md section 4, C06')
 
 check('C13', 'typestate rules over every swap2 instantiation (ordered flavour pairs): throw-before-mutation ordering, size-word write discipline, noexcept soundness on the call graph, capacity-check dominance',
